@@ -13,6 +13,11 @@
  *    "layouts":[{"lid":k,"cfg":name,"name":str,"period":p,"slotmask":m,"mask":[chan ids],
  *                "frames":[[dl_chan,dl_bid,ul_chan,ul_bid], ..]}, ..],   (distinct pointers)
  *    "walk":[{"cfg":name,"tn":n,"enc":[((dl*256+dl_bid)*64+ul)*256+ul_bid per fn]}, ..]}
+ *
+ * Built with -DVF_LCHAN_DESC and the unmodified trxcon/src/sched_lchan_desc.c
+ * the document additionally has, by enum l1sched_lchan_type value,
+ *    "desc":[{"chan_nr":n,"link_id":n,"flags":n}, ..]
+ * (the burst handlers the table points to are never called here: stubs).
  */
 #include <stdio.h>
 #include <stdint.h>
@@ -22,6 +27,14 @@
 #include <osmocom/bb/l1sched/l1sched.h>
 
 #define CYCLE (51 * 26 * 8)
+
+#ifdef VF_LCHAN_DESC
+/* the handlers l1sched_lchan_desc[] refers to (sched_lchan_*.c); never called by this driver */
+#define RX_STUB(f) int f(struct l1sched_lchan_state *lchan, const struct l1sched_burst_ind *bi) { return -1; }
+#define TX_STUB(f) int f(struct l1sched_lchan_state *lchan, struct l1sched_burst_req *br) { return -1; }
+RX_STUB(rx_data_fn) RX_STUB(rx_sch_fn) RX_STUB(rx_tchf_fn) RX_STUB(rx_tchh_fn) RX_STUB(rx_pdtch_fn)
+TX_STUB(tx_data_fn) TX_STUB(tx_rach_fn) TX_STUB(tx_tchf_fn) TX_STUB(tx_tchh_fn) TX_STUB(tx_pdtch_fn)
+#endif
 
 #define N(x) [x] = #x
 static const char *chan_names[_L1SCHED_CHAN_MAX] = {
@@ -121,6 +134,14 @@ int main(int argc, char **argv)
 			}
 			printf("]}");
 		}
-	printf("]}\n");
+	printf("]");
+#ifdef VF_LCHAN_DESC
+	printf(",\n\"desc\":[");
+	for (i = 0; i < _L1SCHED_CHAN_MAX; i++)
+		printf("%s{\"chan_nr\":%u,\"link_id\":%u,\"flags\":%u}", i ? "," : "", (unsigned)l1sched_lchan_desc[i].chan_nr,
+		       (unsigned)l1sched_lchan_desc[i].link_id, (unsigned)l1sched_lchan_desc[i].flags);
+	printf("]");
+#endif
+	printf("}\n");
 	return 0;
 }
